@@ -6,16 +6,16 @@ _HIST_NOTE = ("Trusted base: the harness (instrumented TKey/TVal/TH types, hook 
               "Covers only the generated histories of this run; counts and boundary counters are in the evidence file; non-vacuity floors make a run that missed the relevant situations inconclusive.")
 
 TEXT = {
-    "C01": {"technique": "runtime monitor: model-free bound assertion after every event of boundary-directed random histories (checked + wrapping arithmetic builds)",
+    "C01": {"technique": "runtime monitor: bound assertion after every event of boundary-directed random histories (checked + wrapping arithmetic builds), after every caught injected panic, and in a lock-step run against an executable sequential model for non-instrumented key/value types",
             "design_ref": "DESIGN.md section 5 C01", "level_note": _HIST_NOTE,
             "level_text": "Exploration: current_size() <= max_size() and the true u128 sum of held entry sizes <= max_size() are asserted after every public call of 10^6 (quick) to 10^8 (thorough) generated events, with sizes steered onto exact-fit / one-over / k-eviction thresholds, limits from 0 to usize::MAX and an extreme-size sub-profile. A finite sample of an unbounded space of histories; it cannot prove the bound, it can refute it with a replayable witness."},
-    "C02": {"technique": "runtime monitor: accounting identities (public API vs hook-recorded sizes, u128) after every event",
+    "C02": {"technique": "runtime monitor: accounting identities (public API vs hook-recorded sizes, u128) after every event; lock-step sequential model; real-heap String/Vec caches incl. clones",
             "design_ref": "DESIGN.md section 5 C02", "level_note": _HIST_NOTE,
             "level_text": "Exploration: after every event current_size() is compared with the u128 sum of entry_size over the entries found by the hook walk and with the sum of the sizes recorded inside the entries; len/is_empty consistency; per-entry recorded size == entry_size. Drift shows at the faulty step, not at a later eviction."},
     "C03": {"technique": "runtime monitor: departures of each event vs shortest-LRU-prefix oracle computed from the observed pre-state; drop-order ledger",
             "design_ref": "DESIGN.md section 5 C03", "level_note": _HIST_NOTE,
             "level_text": "Exploration on full caches with sizes aimed at exactly-k-evictions +-1 byte, replacement-then-evict and growth of the LRU entry; floors require multi-entry evictions, exact fits and grow-the-LRU cases to have been observed."},
-    "C04": {"technique": "runtime monitor: unique-id differential map oracle on every return value and on a full lookup sweep (owned + borrowed key forms) after every event",
+    "C04": {"technique": "runtime monitor: unique-id differential map oracle on every return value and on a full lookup sweep (owned + borrowed key forms) after every event; lookup keys that alias stored keys' buffers; 5-9 M-entry and 2^26-bucket rebuilds",
             "design_ref": "DESIGN.md section 5 C04", "level_note": _HIST_NOTE,
             "level_text": "Exploration over tiny key universes, four deterministic hashers including a constant one plus hashbrown's default, tombstone churn and reallocation anywhere. Every value has a unique id, so each read identifies the write it observed."},
     "C05": {"technique": "runtime monitor: post-order == spec(pre-order, op) across all order observers (hook walk, iter, rev, keys, values, peeks, parsed Debug)",
@@ -24,7 +24,7 @@ TEXT = {
     "C10": {"technique": "runtime monitor: classification/payload/atomicity oracle for insert and try_insert computed from the observed pre-state",
             "design_ref": "DESIGN.md section 5 C10", "level_note": _HIST_NOTE,
             "level_text": "Exploration with (key, value) pairs generated on both sides of each threshold (size == free, free+1, max, max+1) and satisfying several failure conditions at once; the returned pair is identified by object ids, and the cache must be bit-for-bit (logical state) unchanged on failure."},
-    "C11": {"technique": "runtime monitor: mutate oracle (closure-ran flag, forwarded token, recency, hook-recorded size, minimal evictions, error payload) from the observed pre-state",
+    "C11": {"technique": "runtime monitor: mutate oracle (closure-ran flag, forwarded token, recency, hook-recorded size, minimal evictions, error payload) from the observed pre-state; lock-step sequential model over value types with and without drop glue; record == entry_size after every completed mutate incl. stale records",
             "design_ref": "DESIGN.md section 5 C11", "level_note": _HIST_NOTE,
             "level_text": "Exploration over position x {shrink, same, fits exactly, needs 1..n evictions, too large}; the recorded size inside the entry is read through the hook so a missing re-accounting is seen at the mutate itself."},
 }
@@ -48,10 +48,10 @@ TEXT.update({
     "C12": {"technique": "exhaustive enumeration of next/next_back call strings per iterator kind and length, oracle from the observed pre-state; ASan + Miri on the same cases",
             "design_ref": "DESIGN.md section 5 C12", "level_note": _MEM_NOTE,
             "level_text": "Exploration, exhaustive within the stated bound (all call strings for lengths 0..=7 quick / 0..=10 thorough), random beyond it. The bound is what limits the claim."},
-    "C13": {"technique": "runtime monitor: capacity inequalities/transparency/growth oracle + allocator-failure injection into try_reserve",
+    "C13": {"technique": "runtime monitor: capacity inequalities/transparency/exact growth-target oracle + allocator-failure injection into try_reserve; long churn with mass-departure cycles; documented reserve refusals checked for transparency",
             "design_ref": "DESIGN.md section 5 C13", "level_note": _HIST_NOTE + " Allocation failure is injected by the harness' global allocator returning null for the k-th request of the call.",
             "level_text": "Fault enumeration for the allocator-refusal clause (each allocation index of try_reserve), exploration for the rest; long churn restated as bounded runs."},
-    "C14": {"technique": "runtime monitor: clone equality + sibling-fingerprint independence after every event; ASan/Miri for shared ownership",
+    "C14": {"technique": "runtime monitor: clone equality + sibling-fingerprint independence after every event; ASan/Miri for shared ownership; clone under allocator refusal in sub-processes (abort accepted, a returned clone judged)",
             "design_ref": "DESIGN.md section 5 C14", "level_note": _MEM_NOTE,
             "level_text": "Exploration over a state pool (any length, order, sizes, after reallocations and tombstones) with diverging operation sequences on up to three sibling caches."},
     "C15": {"technique": "exhaustive enumeration of retain reject-subsets with predicate call log oracle; Miri on small n",
@@ -69,7 +69,7 @@ TEXT.update({
     "C19": {"technique": "MMU write trap (mprotect-ed arena) under every &self operation on 1 and 4 threads + byte hash; Miri and ThreadSanitizer race detection on reader threads",
             "design_ref": "DESIGN.md section 5 C19", "level_note": "Trusted base: the harness' arena allocator and SIGSEGV handler, the kernel's page protection; Miri/TSan as race detectors. A store whose value equals the old one can be removed by the optimiser (then the binary really does not write); the trap sees what the release build executes, Miri sees the unoptimised MIR.",
             "level_text": "Exploration over a pool of cache states (empty, single, tombstoned, just reallocated, constant hasher, up to ~50 entries; every 25th state 300-6250 entries under colliding hashers; only a read-only hook touches the cache before the protected phase) x every shared-reference operation x every key argument present or absent; because a read-only operation set cannot race, the trap decides the 'every interleaving' clause on the states explored."},
-    "C20": {"technique": "runtime monitor: per-call Hash::hash counter vs bound 2 + departures (+ held on rebuild)",
+    "C20": {"technique": "runtime monitor: per-call Hash::hash counter vs bound 2 + departures (+ held on rebuild; an insertion may rebuild only to grow) from 4 to 9 M entries, incl. single calls ejecting thousands to millions of entries",
             "design_ref": "DESIGN.md section 5 C20", "level_note": _HIST_NOTE,
             "level_text": "Exploration across cache sizes; a rehash-per-access or rescan shows as a count growing with the cache size."},
 })
